@@ -17,8 +17,13 @@ EXPLANATION = (
     "each other in their constants (step N, multiply-by-MAX-and-add vs % MAX and / MAX, trailing tuple always "
     "written and read when len % N > 0); (MK) in the reference compressor the marker-1 return passes through the "
     "tuple packer and the marker-0 return does not, the decompressor unpacks exactly when marker != 0, every "
-    "caller appends the returned marker and every reader pops it before decompressing.  ZSTD is trusted.")
-UNDECIDED = "Horner arithmetic correctness inside the loops for all inputs; ZSTD losslessness and context reuse"
+    "caller appends the returned marker and every reader pops it before decompressing; (TP4) the per-tuple arithmetic: "
+    "bytes_to_tuples and tuples_to_bytes are interpreted (MIR, vectors as values) on EVERY string of 1..=N+1 symbols of each packing "
+    "class (0..3: N=4, 0..5: N=3, 0..15: N=2) plus unpackable strings - one full tuple, every shorter trailing tuple, a full tuple "
+    "followed by a trailing symbol: unpack(pack(x)) = x, no assert trips, and pack(x) equals the AGC v3 packing computed from the "
+    "format rule (big-endian base-MAX digits, low-aligned trailing tuple, marker (N<<4)|(len%N)); longer strings repeat the same "
+    "per-tuple step (TP3: both loops advance by N / one tuple and carry nothing else).  ZSTD is trusted.")
+UNDECIDED = "tuple packing of strings longer than one tuple plus a trailing part beyond the structural step clauses of TP3 (the per-tuple arithmetic itself is decided exhaustively by TP4); ZSTD losslessness and context reuse"
 
 TP = "ragc_core::tuple_packing::"
 SC = "ragc_core::segment_compression::"
@@ -124,6 +129,9 @@ def run(F, rep):
     rep.assumptions = ["zstd compress/decompress are inverse for every byte string and level (library contract)"]
     b2t, t2b = F.funcs.get(TP + "bytes_to_tuples"), F.funcs.get(TP + "tuples_to_bytes")
     pk, up = F.funcs.get(TP + "pack_tuples"), F.funcs.get(TP + "unpack_tuples")
+    # ------------------------------------------------------------ TP4 (needs only the two entry points, whatever helpers they use)
+    if b2t and t2b and getattr(F, "cfg", "dev") == "dev":
+        tp4_rule(F, rep, "C12-TP4")
     if not rep.floor("C12-ANCHOR", sum(1 for x in (b2t, t2b, pk, up) if x), 4, "tuple packing functions"):
         return
     # ------------------------------------------------------------ TP1
@@ -148,9 +156,17 @@ def run(F, rep):
                     arm = vals[0]
             rinst.append((n, mx, arm, site_of(t2b, t)))
     rep.floor("C12-TP1", len(winst), 3, "packer instantiations")
-    rep.floor("C12-TP1", len(rinst), 3, "unpacker instantiations")
-    rep.ob("C12-TP1", "packer and unpacker are instantiated for the same (N, MAX) pairs", sorted((a, b) for a, b, _, _ in winst) == sorted((a, b) for a, b, _, _ in rinst),
-           detail="writer %s reader %s" % (sorted((a, b) for a, b, _, _ in winst), sorted((a, b) for a, b, _, _ in rinst)), key="C12-TP1 | same instantiations")
+    same_inst = sorted((a, b) for a, b, _, _ in winst) == sorted((a, b) for a, b, _, _ in rinst)
+    # a reader arm that does not go through the generic unpacker (a hand-written routine for one width) is decided by what it
+    # computes: TP4 evaluates pack and unpack on every string of up to N+1 symbols of each class
+    tp4 = tp4_eval(F) if getattr(F, "cfg", "dev") == "dev" else None
+    by_tp4 = (not same_inst) and tp4 is not None and tp4[3] is None and not tp4[1] and not tp4[2] and len(winst) == 3
+    if not by_tp4:
+        rep.floor("C12-TP1", len(rinst), 3, "unpacker instantiations")
+    rep.ob("C12-TP1", "packer and unpacker are instantiated for the same (N, MAX) pairs", same_inst or by_tp4,
+           detail="writer %s reader %s%s" % (sorted((a, b) for a, b, _, _ in winst), sorted((a, b) for a, b, _, _ in rinst),
+                                           "; the arms the reader handles without the generic unpacker invert the packer on the whole finite domain of TP4 (%d strings)" % tp4[0] if by_tp4 else ""),
+           key="C12-TP1 | same instantiations")
     # which instance does each possible maximum symbol reach?  (walk the decision region for v = 0..255)
     reach = _tabulate_dispatch(b2t, exw, pk.key)
     rep.stat("writer_dispatch", {("%d,%d" % k if k else "pass-through"): _ranges(vs) for k, vs in reach.items() if k != "?"})
@@ -326,3 +342,105 @@ def _last_push_is_marker(pk, ex):
     mk = [bi for bi, t in pushes if "Shl" in repr(ex.operand(t["args"][1]))]
     after = g.reachable_from(mk[0]) - {mk[0]} if mk else set()
     return bool(mk) and not any(bi in after for bi, _ in pushes)
+
+
+def agc_pack(x):
+    """AGC v3 tuple packing, transcribed from the format rule (not from ragc): the oracle of TP4 / C02-TUPLE"""
+    x = list(x)
+    if not x:
+        return [0x10]
+    m = max(x)
+    if m < 4:
+        n, mx = 4, 4
+    elif m < 6:
+        n, mx = 3, 6
+    elif m < 16:
+        n, mx = 2, 16
+    else:
+        return x + [0x10]
+    out, i = [], 0
+    while i + n <= len(x):
+        c = 0
+        for j in range(n):
+            c = c * mx + x[i + j]
+        out.append(c & 0xff)
+        i += n
+    c = 0
+    while i < len(x):
+        c = c * mx + x[i]
+        i += 1
+    out.append(c & 0xff)
+    out.append(((n << 4) | (len(x) % n)) & 0xff)
+    return out
+
+
+_TP4_CACHE = {}
+
+
+def tp4_eval(F):
+    """(evaluations, round-trip failures, format failures, undecidable) over the finite domain"""
+    key = id(F)
+    if key in _TP4_CACHE:
+        return _TP4_CACHE[key]
+    import itertools
+    from vecint import VecInterp
+    from absint import Undecidable, Panic
+    b2t, t2b = F.funcs.get(TP + "bytes_to_tuples"), F.funcs.get(TP + "tuples_to_bytes")
+    n = 0
+    rt_bad, fmt_bad, undec = [], [], None
+    domain = []
+    for alpha, maxlen in ((4, 5), (6, 4), (16, 3)):
+        for L in range(1, maxlen + 1):
+            domain.extend(itertools.product(range(alpha), repeat=L))
+    # tuple boundaries: two full tuples with every trailing length, over the extreme symbols of each class
+    for n_, lo_, hi_ in ((4, 1, 3), (3, 4, 5), (2, 6, 15)):
+        for L in range(n_ + 2, 2 * n_ + 2):
+            domain.extend(itertools.product((lo_, hi_), repeat=L))
+    domain.extend([(16,), (3, 30), (255, 0, 1), (15, 16), (31, 31, 31, 31, 31)])          # symbols that cannot be packed
+    seen = set()
+    for x in domain:
+        if x in seen:
+            continue
+        seen.add(x)
+        n += 1
+        try:
+            p = VecInterp(F).call(b2t, [("refval", list(x))])
+            u = VecInterp(F).call(t2b, [("refval", list(p))])
+        except Panic as e:
+            rt_bad.append("%s: panics (%s)" % (list(x), e))
+            continue
+        except Undecidable as e:
+            undec = "%s: %s" % (list(x), e)
+            break
+        if list(u) != list(x):
+            rt_bad.append("%s packs to %s and unpacks to %s" % (list(x), list(p), list(u)))
+        if list(p) != agc_pack(x):
+            fmt_bad.append("%s packs to %s, AGC v3 packs it to %s" % (list(x), list(p), agc_pack(x)))
+    # the reader's side of the empty string (the writer's `vec![0x10]` is a constant allocation, not evaluated)
+    try:
+        u = VecInterp(F).call(t2b, [("refval", [0x10])])
+        if list(u) != []:
+            rt_bad.append("the packing of the empty string [16] unpacks to %s" % list(u))
+    except Panic as e:
+        rt_bad.append("[16] (empty string): panics (%s)" % e)
+    except Undecidable as e:
+        undec = undec or "[16]: %s" % e
+    _TP4_CACHE[key] = (n, rt_bad, fmt_bad, undec)
+    return _TP4_CACHE[key]
+
+
+def tp4_rule(F, rep, rule, want=("rt", "fmt")):
+    b2t = F.funcs.get(TP + "bytes_to_tuples")
+    n, rt_bad, fmt_bad, undec = tp4_eval(F)
+    site = "%s:%d" % (b2t.file, b2t.line_lo)
+    if "rt" in want:
+        rep.ob(rule, "unpack(pack(x)) = x for every string of one tuple, every shorter trailing tuple and a tuple plus one symbol, in each packing class",
+               undec is None and not rt_bad,
+               detail=("undecidable construct: %s" % undec) if undec else ("%d strings evaluated" % n if not rt_bad else "%d of %d strings fail, e.g. %s" % (len(rt_bad), n, "; ".join(rt_bad[:3]))),
+               site=site, key="%s | round trip on the finite domain" % rule)
+    if "fmt" in want:
+        rep.ob(rule, "pack(x) is the AGC v3 packing (big-endian base-MAX digits, low-aligned trailing tuple, marker (N<<4)|(len%N)) on the same domain",
+               undec is None and not fmt_bad,
+               detail=("undecidable construct: %s" % undec) if undec else ("%d strings evaluated" % n if not fmt_bad else "%d of %d strings differ, e.g. %s" % (len(fmt_bad), n, "; ".join(fmt_bad[:3]))),
+               site=site, key="%s | format on the finite domain" % rule)
+    rep.stat("tuple_codec_strings_evaluated", n)
